@@ -401,6 +401,22 @@ def ob_fill(ctx, res):
     res.ok(fn, "fill: held value returned unchanged; gap -> {last_end, next.start, 0.0} then the value; no gap -> value unchanged; trailing filler to expected_end; errors pass through")
 
 
+def _direct_stmt_of(fn, n):
+    x = n.parent
+    while x is not None and isinstance(x, Node) and x.k not in ("expr_stmt", "let"):
+        x = x.parent
+    return x is not None and isinstance(x, Node) and x.parent is fn.body
+
+
+def _inside_node(n, root):
+    x = n
+    while x is not None and isinstance(x, Node):
+        if x is root:
+            return True
+        x = x.parent
+    return False
+
+
 def ob_window(ctx, res):
     """C15-W1: structural clauses of the 50,000-base window accumulator (ValueIter::next); its arithmetic is NOT decided"""
     fn = ctx.ast.fn(ME, "next", impl="ValueIter")
@@ -456,8 +472,21 @@ def ob_window(ctx, res):
     res.ok(holds[0], "values starting beyond or reaching the end of the window are held back (`*last = Some(v); break`) and re-examined in the next window")
     # 4. window advance
     t = up(fn.body)
-    if "let current_start = self.next_start; self.next_start = current_start + DATA_SIZE as u32;" not in t:
+    m_adv = re.search(r"let current_start = self\.next_start; ?self\.next_start = current_start(\.saturating_add\(| \+ )\(?DATA_SIZE as u32\)?;", t)
+    if not m_adv:
         res.fail("window/advance", fn, "windows must tile the chromosome: next_start advances by exactly DATA_SIZE per window")
+        return
+    if "saturating_add" not in m_adv.group(1):
+        res.fail("window/advance-overflow", fn,
+                 "`current_start + DATA_SIZE as u32` is a plain u32 addition: after a window within 50,000 bases of u32::MAX it overflows (panic with overflow checks); "
+                 "no value can start at or after such a window, so the start must saturate")
+        return
+    # the scanned length belongs to one window: declared inside the window loop (a stale length re-scans zero slots of a later, empty
+    # window and computes their positions, which overflows near u32::MAX)
+    wl = [n for n in walk_no_nested_fn(fn.body) if n.k == "loop" and n.parent is not None and _direct_stmt_of(fn, n)]
+    mdl = [n for n in walk_no_nested_fn(fn.body) if n.k == "let" and up(n["pat"]).replace("mut ", "") == "max_data_len"]
+    if len(mdl) != 1 or not wl or not _inside_node(mdl[0], wl[0]["body"]):
+        res.fail("window/scan-length", fn, "max_data_len must be reset for every window (declared inside the window loop)")
         return
     c = ctx.ast.const(ME, "DATA_SIZE")
     res.ok(fn, "windows tile the coordinate space: start = next_start; next_start += DATA_SIZE")
